@@ -1,0 +1,16 @@
+//go:build verif
+
+package dispute
+
+// Contracts for x/dispute (begin-block processing), read by /verif/bin/govc. Comment-only:
+// compiled only with -tags verif and adds no code.
+//
+// A dispute is executed in the begin blocker when it is pending execution and either resolved or past its end time.
+// ExecuteVote itself fails ("can't execute, dispute not resolved") unless the dispute is resolved or -- being tallied
+// -- strictly past its end time: the begin blocker must only call it when that holds, otherwise BeginBlock fails (C02).
+
+//@ func CheckClosedDisputesForExecution(ctx, k) (err)
+//@ requires [pending_disputes_are_tallied] forall i int :: has(dispute.Disputes, i) && dispute.Disputes[i].PendingExecution ==> has(dispute.Votes, i) && dispute.Votes[i].VoteResult != types.VoteResult_NO_TALLY
+//@ modifies bank.bal, bank.supply, dispute.Disputes, dispute.Votes, dispute.BlockInfo, reporter.*, staking.*, H_*, A_*
+//@ loop 0 "for ; iter.Valid(); iter.Next()"
+//@ loop 0 invariant [disputes_still_to_visit_are_pending_and_tallied] forall j in [itpos(iter), itlen(iter)) :: has(dispute.Disputes, itkey(iter, j)) && has(dispute.Votes, itkey(iter, j)) && dispute.Votes[itkey(iter, j)].VoteResult != types.VoteResult_NO_TALLY && dispute.Disputes[itkey(iter, j)] == old(dispute.Disputes[itkey(iter, j)])
